@@ -85,6 +85,14 @@ func checkC01(c *Ctx) {
 			c.Sample(map[string]interface{}{"family": "GenCtl", "source": src})
 		}
 	}
+	// whole files whose commands and AutoVar conditions carry inline text / moves()
+	nf := 60
+	if !c.Quick() {
+		nf = 1500
+	}
+	fileRefineCases(c, r, nf, FileCfg{MaxTops: 3, Inline: true, AutoInline: true, MapScripts: true, Formats: true,
+		Kinds: []string{"script", "script", "script", "mapscripts", "text", "movement"},
+		Ctl:   GenCfg{MaxDepth: 3, MaxStmts: 3, MaxLeaves: 3, Switches: true, Gotos: true}}, "fd", &cases, &rejected)
 	// the repository's own test inputs, in emitter-only mode (the parser's AST is the source side)
 	cc, acc, skip := corpusCases(c)
 	cases = append(cases, cc...)
